@@ -33,6 +33,8 @@ def main():
     ap.add_argument("--replay", default=None)
     a = ap.parse_args()
     os.chdir(common.VERIF)
+    os.environ.pop("VERIF_SCRATCH_ROOT", None)   # this process owns the scratch directory; every descendant nests in it
+    common.scratch()
     try:
         mod = importlib.import_module("props." + a.prop.lower())
         rc = mod.run(a.tier, a.replay)
